@@ -132,3 +132,43 @@ def build_items(ctx, npts=2):
                 desc.append({"kind": kind, "outliers": dop > 0, "N": N, "thr": thr, "alpha": alpha, "order": order, "start": start, "paths": npaths})
                 ctx.case(key=("corr", kind, dop, N, thr, order, start), nontrivial=True)
     return items, desc
+
+
+# ---------------------------------------------------------------- the grammar of Model/Grammar.v (Proofs/GrammarPG.v)
+def grammar_items(ctx):
+    """(a) the model's state space `forests n on` (every forest some order's grammar builds) against the harness's independent
+    enumeration of clone forests (the state space of the exact transition matrices); (b) the retained path the real
+    ConditionalSMCSampler rebuilds from the current tree along an order drawn by the real RootPermutationDistribution is a word
+    of the grammar whose states are the successive restrictions of the tree, and the order is compatible in the model's sense."""
+    import numpy as np
+
+    from ..trees import coq_nat_list, coq_table, random_spec, rational_values, spec_table
+
+    items, desc = [], []
+    for (n, on) in ((1, True), (2, True), (2, False), (3, True), (3, False)) + (() if ctx.quick else ((4, False), (4, True))):
+        tabs = [spec_table(s, n) for s in all_specs(range(n), outliers=on)]
+        items.append("set_eqb teqb (forests %d %s) [%s] && (length (forests %d %s) =? %d)" % (n, "true" if on else "false", "; ".join(coq_table(t) for t in tabs), n, "true" if on else "false", len(tabs)))
+        desc.append({"what": "state space", "n": n, "outliers": on, "forests": len(tabs)})
+        ctx.case(key=("grammar-state-space", n, on), nontrivial=n >= 2)
+    from phyclone.smc.samplers import ConditionalSMCSampler
+    from phyclone.smc.utils import RootPermutationDistribution
+
+    for k in range(40 if ctx.quick else 300):
+        n = ctx.rng.randint(2, 7)
+        on = ctx.rng.random() < 0.6
+        spec = random_spec(ctx.rng, range(n), outlier_frac=0.25 if on else 0.0)
+        vals = rational_values(ctx.rng, n, 1, 3)
+        data = make_data(vals, outlier_prob=0.2 if on else 0.0)
+        tree = build_tree(spec, data)
+        rng = np.random.default_rng(ctx.rng.randrange(10**9))
+        td = make_tree_dist(1.0)
+        kern = make_kernel(ctx.rng.choice(["bootstrap", "semi-adapted", "fully-adapted"]), td, rng, 0.1 if on else 0.0, True)
+        sigma = RootPermutationDistribution.sample(tree, rng)
+        s = ConditionalSMCSampler(tree, sigma, kern, num_particles=2, resample_threshold=0.5)
+        order = [int(dp.idx) for dp in sigma]
+        tabs = [spec_table(tree_spec(p.tree), n) for p in s.constrained_path[1:]]
+        items.append("chk_retained %d %s %s [%s] %s" % (n, "true" if on else "false", coq_nat_list(order), "; ".join(coq_table(t) for t in tabs), coq_table(spec_table(spec, n))))
+        desc.append({"what": "retained path", "start": spec, "order": order})
+        ctx.case(key=("grammar-retained", spec, tuple(order)), nontrivial=len(spec[0]) >= 1)
+        ctx.count("grammar_retained_npts=%d" % n)
+    return items, desc
